@@ -207,6 +207,10 @@ Rules(e, d2) ==
                     \/ st.eng[n].user # disks[n].user
                     \/ st.eng[n].removed # disks[n].removed)
           THEN {"EngineDisks"} ELSE {})
+    \* the engine's cached "parent of the head" (Info.Parent: guards the latest snapshot, is
+    \* reported and persisted) names the member below the head
+    \cup (IF open /\ st.open /\ "eparent" \in DOMAIN st /\ st.eparent # disks[chain[Len(chain)]].parent
+          THEN {"HeadParent"} ELSE {})
     \cup (IF DOMAIN files # DOMAIN disks THEN {"DirNames"} ELSE {})
     \cup (IF \E n \in common : \/ files[n].parent # disks[n].parent
                                \/ files[n].user # disks[n].user
